@@ -241,8 +241,11 @@ class Ctx:
             raise Inconclusive("harness build failed (the repository or the harness does not compile):\n" + b.stdout[-3000:])
         return binp
 
-    def go_run(self, binp, run, *, env=None, timeout_s=1800, cwd=None, cases=None, out="obs.ndjson", must_write=True):
-        """R3: run one injected test function of a test binary; returns the recorded observations."""
+    def go_run(self, binp, run, *, env=None, timeout_s=1800, cwd=None, cases=None, out="obs.ndjson", must_write=True, death_ok=False):
+        """R3: run one injected test function of a test binary; returns the recorded observations.
+        death_ok: a driver that exits non-zero is not an engine failure; what it recorded is returned and the output is kept in
+        self.last_death (for phases where the death of the process is itself an observation of the code under test)."""
+        self.last_death = None
         outp = self.path(out)
         if os.path.exists(outp):
             os.remove(outp)
@@ -260,6 +263,9 @@ class Ctx:
         self.log("R3", run, f"rc={p.returncode} {time.time()-t:.1f}s")
         self.last_stdout = p.stdout
         if p.returncode != 0:
+            if death_ok:
+                self.last_death = p.stdout
+                return self.read_ndjson(outp) if os.path.exists(outp) else []
             raise Inconclusive(f"R3 driver {run} died (rc={p.returncode}):\n{tail}")
         if must_write and not os.path.exists(outp):
             raise Inconclusive(f"R3 driver {run} wrote no observations:\n{tail}")
